@@ -17,11 +17,13 @@ CLAIMED = {
          'with the update and, for every trial it names, the merge of that trial\'s metadata with its updates, touching nothing else; a call '
          'that names a missing trial answers with error details and leaves the stored state syntactically unchanged '
          '(C10_update_metadata_rpc); after any sequence of such calls each (namespace, key) of the study holds the value of the last '
-         'ACCEPTED write (C10_update_metadata_history). Tie: correspondence of Namespace.encode/decode and merge_study/trial_metadata with '
+         'ACCEPTED write (C10_update_metadata_history). ENCODE / PARSE ARE THE SOURCE: coq/Gen/NamespaceSrc.v is regenerated from common.py at every run (escape table and join of '
+         'Namespace.encode; prologue and the four loop branches of _parse) and its meaning is proved equal to the model functions '
+         '(C10_source_parse_is_the_model, C10_source_encode_is_the_model). Tie: correspondence of Namespace.encode/decode and merge_study/trial_metadata with '
          'the model; metadata_util.assign / get / get_proto and key-value-list conversions with string, Message and packed Any values; '
          'UpdateMetadata and algorithm deltas end to end through the service on both datastores.'),
    note=BASE_TB + ' Packed-proto payloads are opaque (tag + bytes).',
-   technique='Rocq proof (induction over update sequences; parser invariant) + vm_compute correspondence',
+   technique='Rocq proof (induction over update sequences; parser invariant; encode / parse regenerated from the source by a translator) + vm_compute correspondence',
    design='5/C10'),
 }
 CLAIMED['C11'] = dict(
@@ -31,10 +33,12 @@ CLAIMED['C11'] = dict(
          'point" for ALL finite point lists of NaN-free vectors of equal length incl. duplicates, ties and +-inf (C11_naive_correct, '
          'C11_naive_against_*, C11_service_matrix_correct, C11_rank_*, C11_jax_against_correct, C11_frontier_correct). REFUTED with '
          'kernel-checked witnesses: divide-and-conquer is_pareto_optimal on first-coordinate ties (C11_fast_refuted), is_frontier with '
-         'one shard, NaN objectives reported by the service matrix. FastPareto routines are modelled executable (fuel) and tied by '
+         'one shard, NaN objectives reported by the service matrix. THE DOMINANCE TESTS ARE THE SOURCE: coq/Gen/Dominance.v is regenerated at every run (entry, reduction axis and negation of the '
+         'ListOptimalTrials matrix; row test and sum of nsga2._pareto_rank; xla_pareto._is_dominated in both modes with the vmaps and reductions of '
+         '_is_pareto_optimal_against / pareto_rank) and proved to denote the model functions (C11_source_*). FastPareto routines are modelled executable (fuel) and tied by '
          'correspondence only: no correctness theorem for them yet (partial).'),
    note=BASE_TB + ' numpy argsort modelled as stable sort (correspondence for the defective fast is_pareto_optimal restricted to tie-free inputs); np.linspace cut points taken from numpy.',
-   technique='Rocq proof (loop invariant + maximal-dominator argument; induction over shards) + vm_compute correspondence',
+   technique='Rocq proof (loop invariant + maximal-dominator argument; induction over shards; dominance tests regenerated from the source by a translator) + vm_compute correspondence',
    design='5/C11')
 SVC_NOTE = BASE_TB + (' The service model (Model/Service.v: 20 datastore primitives, 17 handler programs in a free monad, sequential interpreter) '
   'is a hand transcription of vizier_service.py / ram_datastore.py / sql_datastore.py; it is tied on every run by replaying generated RPC '
@@ -49,10 +53,16 @@ CLAIMED['C01'] = dict(
          'tracking relation composed over the calls of each handler, with a pool invariant through the assignment loop of SuggestTrials). '
          'Also: a call on a missing study / missing trial, any mutation of a non-active study, and Complete / Measure / Stop / CheckEarlyStop on '
          'a non-active trial end with the documented error class (or the documented no-op) and leave the stored state syntactically unchanged; '
-         'Complete / Measure / Stop on an active trial rewrite exactly that trial (C01_*_effect, C01_rewrite_is_local). PARTIAL: that the '
-         'handler programs are the code is decided by the trace-level correspondence + per-step monitor (legal transitions, immutability, '
+         'Complete / Measure / Stop on an active trial rewrite exactly that trial (C01_*_effect, C01_rewrite_is_local). THE HANDLERS ARE THE SOURCE: coq/Gen/Handlers.v, SuggestSrc.v, EarlyStopSrc.v, OptimalSrc.v are regenerated at every run from vizier_service.py: '
+         'the bodies of 14 RPC methods statement by statement in the statement language of Model/HandlerIR.v (svchandlers.py, plus the study guard and '
+         '_TRIAL_MUTABLE_STATES), and SuggestTrials, CheckTrialEarlyStoppingState, ListOptimalTrials block by block (svcsuggest.py, svcearlystop.py, '
+         'svcoptimal.py: the statements of every block are pinned, compared as parsed code; sequence and lock nesting of the blocks are written down); the program each body denotes is proved to be, node for node (datastore calls with their arguments, '
+         'lock operations, replies, error classes), the handler program all theorems are about (C01_source_handlers_are_the_model, closed; '
+         'C01_source_handlers_run_like_the_model for whole histories; C01_source_handlers_equal_the_model as an equality, the one theorem of '
+         'this file that uses the standard library\'s functional extensionality; C01_source_guards). all 17 kinds are covered (C01_source_every_kind). PARTIAL: that the '
+         'datastore primitives are the code, and that the pinned blocks mean what Model/*IR.v says, is decided by the trace-level correspondence + per-step monitor (legal transitions, immutability, '
          'illegal-call table from the docstrings), incl. sequences dense in half-failing datastore writes.'),
-   note=SVC_NOTE, technique='Rocq proof (tracking relation + loop invariant over handler programs; symbolic execution) + trace-level correspondence', design='5/C01')
+   note=SVC_NOTE, technique='Rocq proof (tracking relation + loop invariant over handler programs; symbolic execution; handler programs regenerated from the source by a translator and proved equal to the model) + trace-level correspondence', design='5/C01')
 CLAIMED['C02'] = dict(
    text=('Theorems (closed under the global context), for every state, worker, count and Pythia answer. THE FUNCTIONAL THEOREM '
          '(C02_suggest_functional): on a state where the study is active, the worker has no unfinished operation, its operations are '
@@ -100,18 +110,24 @@ CLAIMED['C07'] = dict(
    text=('Both backends are tied by trace-level correspondence to ONE model of the DataStore contract, so backend equivalence is equality of '
          'two runs of one function (C07_same_calls_same_observations); theorems C07_operation_numbering_agrees / ..._on_reachable_states (numbering invariant over all histories) cover the place where they '
          'compute differently (len vs max). The same sequences are also replayed on RAM, in-memory SQLite and an SQLite file and compared '
-         'pairwise after every step. Two real divergences were found and repaired (fix: commits).'),
-   note=SVC_NOTE + ' Other SQL engines are not covered.', technique='refinement of both backends to one Rocq model + differential replay', design='5/C07')
+         'pairwise after every step. TRANSLATOR: coq/Gen/RamShapes.v is regenerated from ram_datastore.py at every run (per DataStore method: dict lookups wrapped into '
+         'NotFoundError or not, AlreadyExistsError guard, missing-trial test, datastore lock, copies on the way in and out, checks before writes); '
+         'C07_ram_source_agrees_with_the_model_primitives re-checks in the kernel that the error class (or success) of every model primitive on a '
+         'state where nothing exists / only the study exists / everything addressed exists is what the source\'s structure gives, and that every '
+         'method is locked and alias-free. Three real divergences were found and repaired (fix: commits).'),
+   note=SVC_NOTE + ' Other SQL engines are not covered.', technique='refinement of both backends to one Rocq model (RAM method structure regenerated from the source by a translator and checked against the model primitives in the kernel) + differential replay', design='5/C07')
 CLAIMED['C12'] = dict(
    text=('Theorem C12_exactly_once_partial (closed under the global context): for every history of requests in which trial ids are unique, '
          'bounded by max_trial_id, and max_trial_id never decreases, the completed-trial deliveries of IdDeduplicatingTrialLoader over the whole '
          'life of the study are duplicate-free (at most once), contain every trial completed by request k by request k (at least once), contain '
          'only completed trials, and each update carries exactly the trials ACTIVE at that moment; restarts (dump->load) keep the state; a fresh or '
          'state-less policy gets everything (C12_fresh_policy_gets_all, C12_lost_state_gets_all). The unguarded statement is REFUTED by a '
-         'kernel-checked history (C12_full_refuted) = known finding C12-max-trial-id-decreases. Tie: the real loader, the three policy wrappers over '
+         'kernel-checked history (C12_full_refuted) = known finding C12-max-trial-id-decreases. THE LOADER IS THE SOURCE: coq/Gen/TrialCacheSrc.v is regenerated from trial_caches.py at every run (guard, set expressions, status '
+         'filter of get_newly_completed_trials; dump / load / clear) and its meaning is proved equal to the model function the theorems are about '
+         '(C12_source_loader_is_the_model, C12_source_restart_keeps_the_cache). Tie: the real loader, the three policy wrappers over '
          'InRamPolicySupporter and the policies hosted in the real service are compared with the model on generated histories.'),
    note=BASE_TB + ' The recording designer and the world generator of harness/props/c12.py.',
-   technique='Rocq proof (invariant over request histories, pigeonhole on the id set) + vm_compute correspondence', design='5/C12')
+   technique='Rocq proof (invariant over request histories, pigeonhole on the id set; loader regenerated from the source by a translator) + vm_compute correspondence', design='5/C12')
 CLAIMED['C05'] = dict(
    text=('TRANSLATOR + theorems: coq/Gen/SqlShapes.v is regenerated from sql_datastore.py on every run (per method the skeleton of reads, '
          'writes, _write_or_rollback, commit, rollback, raise, branches, loops, try/except); C05_all_methods_have_atomic_shape re-checks all 20 '
@@ -140,7 +156,7 @@ CLAIMED['C04'] = dict(
          'TRANSLATOR: coq/Gen/ServiceLocks.v is regenerated from vizier_service.py at every run (per RPC method: datastore call sites in '
          'source order with the lexically enclosing servicer locks; nesting of the with-statements); re-checked in the kernel on that '
          'table: writes under their lock, every read that feeds a rewrite under the same lock (get_trial / update_trial, max_trial_id '
-         'directly before create_trial, ...), operation lock never taken inside another lock (C04_source_*). ISOLATION (C04_different_studies_any_schedule): two calls of any kind (except study '
+         'directly before create_trial, ...), operation lock never taken inside another lock, and in the methods that take the operation lock the study handed to the algorithm is loaded and the algorithm\'s metadata written back under that lock (C04_source_*, C04_source_algorithm_state_under_operation_lock). ISOLATION (C04_different_studies_any_schedule): two calls of any kind (except study '
          'creation / deletion / listing) that address different studies end with the same replies, owners and stored data under EVERY pair '
          'of complete schedules, hence every interleaving equals both serial orders (every datastore primitive reads and writes only the '
          'node of its study; each thread is simulated by the same thread running alone). For calls on the SAME study the full '
@@ -149,7 +165,7 @@ CLAIMED['C04'] = dict(
          'serialisability theorem for the remaining same-study pairs is NOT proved: it is decided by exhaustive-per-pair / random schedule '
          'exploration of real threads under a deterministic scheduler, compared with all serial orders of the real implementation (up to '
          'renumbering of new trials) and with the model replayed on the same schedule, plus a focused stage: every pair of trial-level calls '
-         'on the same trial under every schedule of the form "A takes j steps, B runs to completion, A finishes". Two families of real races were found and repaired '
+         'on the same trial under every schedule of the form "A takes j steps, B runs to completion, A finishes", and the same schedules for overlapping suggestion / early-stopping calls with an algorithm that keeps a counter in the study metadata (lost update of persisted algorithm state). Two families of real races were found and repaired '
          '(fix: commits).'),
    note=SVC_NOTE + ' Scheduling points are datastore primitive calls and servicer-lock acquisitions; interleavings inside a datastore primitive, inside SQLite/gRPC and the GIL are not explored; at most 3 threads in the exploration (the theorems are unbounded).',
    technique='Rocq proof (invariants over all interleavings; lock-order argument; simulation by solo runs) + source translator for lock coverage + deterministic-scheduler exploration against serial orders', design='5/C04')
@@ -203,11 +219,13 @@ CLAIMED['C17'] = dict(
          'carries, or a child of an active node whose matching values contain the trial\'s value for it) and is the trial\'s value cast to '
          'that node\'s type (C17_presented_are_active); a trial carrying a parameter that is not an active parameter is an error '
          '(C17_inactive_parameter_is_an_error). Proving this exposed a genuine defect (children of an inactive config were queued: an '
-         'inactive grandchild was presented when its parent\'s name also occurs in the active subtree), repaired by a fix: commit. Tie: the '
+         'inactive grandchild was presented when its parent\'s name also occurs in the active subtree), repaired by a fix: commit. THE LOOP IS THE '
+         'SOURCE: coq/Gen/ExternalSrc.v is regenerated from study_config.py at every run (the loop body of _trial_to_external_values statement '
+         'by statement, initialisation, condition, the length check) and proved to denote the model function (C17_source_loop_is_the_model). Tie: the '
          'BFS model is compared with StudyConfig.trial_parameters on generated spaces (incl. same names in several subtrees) and an oracle '
          'recomputes activity from the space.'),
    note=BASE_TB + ' Numeric strings cast "for benchmark use" are outside the model; doubles are exact rationals.',
-   technique='Rocq proof (invariant of the BFS worklist, stable-sort lemma) + vm_compute correspondence', design='5/C17')
+   technique='Rocq proof (invariant of the BFS worklist, stable-sort lemma; the loop regenerated from the source by a translator) + vm_compute correspondence', design='5/C17')
 CONV_NOTE = BASE_TB + (' Decoding (DefaultModelInputConverter._to_parameter_value, one-hot un-embedding, label sign) is a hand-written model over exact '
   'rationals with +-inf/nan (Model/Conv.v) tied by correspondence; the scaling formulas and the should_clip defaults / call sites are '
   'regenerated from converters/core.py on every run by harness/translate/scalers.py (fail-closed) into coq/Gen/Scalers.v, and the theorems about '
